@@ -5,6 +5,7 @@
 #[allow(dead_code)]
 #[path = "../../chain/src/main.rs"]
 mod chainmod;
+mod adapter_glue;
 
 use chainmod::*;
 use grin_chain::Options;
@@ -22,13 +23,25 @@ use vcommon::*;
 fn run_one(case: &Value, dir: &str, seed: u64, delay_us: u64) -> Value {
 	let _ = std::fs::remove_dir_all(dir);
 	std::fs::create_dir_all(dir).unwrap();
+	if case["profile"].as_str() == Some("flood") {
+		let (w, chain) = flood_world(case, dir);
+		return run_threads(case, Arc::new(w), Arc::new(chain), dir, seed, delay_us);
+	}
 	let w = Arc::new(build_world(case, dir));
 	let node_dir = format!("{}/node", dir);
 	let chain = Arc::new(init_chain(&node_dir));
 	let trunk = case["trunk"].as_u64().unwrap_or(0);
-	for k in 1..=trunk {
-		let _ = chain.process_block(w.blocks[&k].clone(), Options::SKIP_POW);
+	// (long trunks come as a templated node directory that already holds the trunk)
+	if chain.head().unwrap().height < trunk {
+		for k in 1..=trunk {
+			let _ = chain.process_block(w.blocks[&k].clone(), Options::SKIP_POW);
+		}
 	}
+	run_threads(case, w, chain, dir, seed, delay_us)
+}
+
+/// The threads of one scenario on a prepared node: writers run their programs, readers observe.
+fn run_threads(case: &Value, w: Arc<World>, chain: Arc<grin_chain::Chain>, dir: &str, seed: u64, delay_us: u64) -> Value {
 	let tx_addr = Arc::as_ptr(&chain.txhashset()) as *const () as usize;
 	let hp_addr = Arc::as_ptr(&chain.header_pmmr()) as *const () as usize;
 	// NB: Arc::as_ptr points at the lock inside the Arc allocation = the address the lock logs
@@ -43,20 +56,33 @@ fn run_one(case: &Value, dir: &str, seed: u64, delay_us: u64) -> Value {
 	let progs = case["threads"].as_object().unwrap().clone();
 	let nwriters = progs.len();
 	let done_writers = Arc::new(AtomicUsize::new(0));
+	// number of calls each writer has finished (start gates: "start_after": {"2": [1, 212]} = thread 2
+	// starts once thread 1 has finished 212 calls)
+	let progress: Arc<Vec<AtomicUsize>> = Arc::new((0..=nwriters + 1).map(|_| AtomicUsize::new(0)).collect());
 	for (tname, prog) in progs {
 		let t: u64 = tname.parse().unwrap();
 		let prog = prog.as_array().unwrap().clone();
-		let (chain, w, calls, panics, done_writers) = (chain.clone(), w.clone(), calls.clone(), panics.clone(), done_writers.clone());
+		let gate: Option<(usize, usize)> = case["start_after"][&tname].as_array().map(|a| (a[0].as_u64().unwrap() as usize, a[1].as_u64().unwrap() as usize));
+		let (chain, w, calls, panics, done_writers, progress) = (chain.clone(), w.clone(), calls.clone(), panics.clone(), done_writers.clone(), progress.clone());
 		handles.push(std::thread::spawn(move || {
 			global::set_local_chain_type(ChainTypes::AutomatedTesting);
 			global::set_local_nrd_enabled(true);
 			verif::set_thread_tag(t);
+			if let Some((t0, k)) = gate {
+				while progress[t0].load(Ordering::SeqCst) < k {
+					std::thread::sleep(Duration::from_micros(200));
+				}
+			}
 			for (i, op) in prog.iter().enumerate() {
 				let k = op["k"].as_str().unwrap().to_string();
 				let b = op["b"].as_u64().unwrap();
 				let s0 = verif::event("call_start", i);
 				let r = std::panic::catch_unwind(std::panic::AssertUnwindSafe(|| match k.as_str() {
 					"ProcessBlock" => class_of(&chain.process_block(w.blocks[&b].clone(), Options::SKIP_POW)),
+					"Compact" => match chain.compact() {
+						Ok(()) => "ok".to_string(),
+						Err(_) => "reject".to_string(),
+					},
 					_ => match chain.process_block_header(&w.blocks[&b].header, Options::SKIP_POW) {
 						Ok(()) => "ok".to_string(),
 						Err(_) => "reject".to_string(),
@@ -71,29 +97,62 @@ fn run_one(case: &Value, dir: &str, seed: u64, delay_us: u64) -> Value {
 				};
 				let s1 = verif::event("call_end", i);
 				calls.lock().unwrap().push(json!({"t": t, "i": i + 1, "k": k, "b": b, "s0": s0, "s1": s1, "res": res}));
+				progress[t as usize].store(i + 1, Ordering::SeqCst);
 			}
 			done_writers.fetch_add(1, Ordering::SeqCst);
 		}));
 	}
 	// reader threads: get_unspent of every commitment + head(), validate_tx of block transactions
 	let nreaders = case["readers"].as_u64().unwrap_or(3);
+	// observations per reader thread (long scenarios cap them: the trace grows with every observation)
+	let case_reader_cap = case["reader_cap"].as_u64().unwrap_or(4000) as usize;
+	let done_others = Arc::new(AtomicUsize::new(0));
 	for r in 0..nreaders {
 		let t = 100 + r;
 		let (chain, w, calls, panics, stop) = (chain.clone(), w.clone(), calls.clone(), panics.clone(), stop_readers.clone());
+		let done_others = done_others.clone();
 		handles.push(std::thread::spawn(move || {
+			let _done = DoneGuard(done_others);
 			global::set_local_chain_type(ChainTypes::AutomatedTesting);
 			global::set_local_nrd_enabled(true);
 			verif::set_thread_tag(t);
 			let commits: Vec<(u64, _)> = w.commit_of.iter().map(|(c, k)| (*c, *k)).collect();
+			let max_h = w.tree.values().map(|b| b.height).max().unwrap_or(0);
 			let mut n = 0usize;
 			let mut last_work = 0u64;
-			while !stop.load(Ordering::SeqCst) && n < 4000 {
+			// reader kinds: 0 = get_unspent + UTXO scan, 1 = head, 2 = validate_tx, 3 = header-MMR views
+			let kind = r % 4;
+			let cap = case_reader_cap;
+			while !stop.load(Ordering::SeqCst) && n < cap {
 				let (c, commit) = commits[n % commits.len()];
 				let res = std::panic::catch_unwind(std::panic::AssertUnwindSafe(|| {
-					if r % 3 == 2 {
+					if kind == 3 {
+						// views that involve the header MMR: the header at a height (header_pmmr.read()) and the
+						// header of the block that created an unspent output (header_pmmr.read() + txhashset.read()
+						// held together); positioned by the header-MMR read-lock acquisition
+						let idv = |r: Result<grin_core::core::BlockHeader, grin_chain::Error>| -> i64 {
+							match r {
+								Ok(h) => w.id_of.get(&h.hash()).map(|x| *x as i64).unwrap_or(-2),
+								Err(_) => -1,
+							}
+						};
+						if n % 2 == 0 {
+							let h = (n as u64 / 2) % (max_h + 2);
+							let s0 = verif::event("hat_start", h as usize);
+							let v = chain.get_header_by_height(h);
+							let s1 = verif::event("hat_end", h as usize);
+							return json!({"t": t, "k": "HdrAt", "h": h, "s0": s0, "s1": s1, "id": idv(v)});
+						}
+						let (c, commit) = commits[(n / 2) % commits.len()];
+						let s0 = verif::event("hfo_start", c as usize);
+						let v = chain.get_header_for_output(commit);
+						let s1 = verif::event("hfo_end", c as usize);
+						return json!({"t": t, "k": "HdrOf", "c": c, "s0": s0, "s1": s1, "id": idv(v)});
+					}
+					if kind == 2 {
 						// validate_tx of a block's transaction under the read locks: Ok iff its inputs are
 						// unspent and its outputs are not (positioned by the txhashset read-lock acquisition)
-						let ids: Vec<u64> = w.tree.iter().filter(|(_, b)| !b.outs.is_empty() && b.lock < 1000).map(|(id, _)| *id).collect();
+						let ids: Vec<u64> = w.tree.iter().filter(|(_, b)| !b.tx.outs.is_empty() && b.tx2.outs.is_empty() && b.tx.lock < 1000).map(|(id, _)| *id).collect();
 						if ids.is_empty() {
 							return json!({"t": t, "k": "Noop"});
 						}
@@ -110,7 +169,7 @@ fn run_one(case: &Value, dir: &str, seed: u64, delay_us: u64) -> Value {
 						let s1 = verif::event("vtx_end", b as usize);
 						return json!({"t": t, "k": "ValidateTx", "b": b, "s0": s0, "s1": s1, "ok": v.is_ok()});
 					}
-					if r % 3 == 0 && n % 4 == 3 {
+					if kind == 0 && n % 4 == 3 {
 						// the paginated UTXO scan behind the node API: one consistent view of size, outputs and proofs
 						let s0 = verif::event("scan_start", 0);
 						let v = chain.unspent_outputs_by_pmmr_index(1, 100_000, None);
@@ -121,7 +180,7 @@ fn run_one(case: &Value, dir: &str, seed: u64, delay_us: u64) -> Value {
 							Err(e) => json!({"t": t, "k": "Scan", "s0": s0, "s1": s1, "ok": false, "cnt": 0, "nl": 0, "err": format!("{:?}", e)}),
 						};
 					}
-					if r % 3 == 0 {
+					if kind == 0 {
 						// read under the txhashset read lock: position in the log = its r_acq event
 						let s0 = verif::event("read_start", c as usize);
 						let v = chain.get_unspent(commit);
@@ -173,7 +232,9 @@ fn run_one(case: &Value, dir: &str, seed: u64, delay_us: u64) -> Value {
 	// extension (rewind to the parent, apply, discard); it must never leak into the committed state
 	{
 		let (chain, w, panics, stop) = (chain.clone(), w.clone(), panics.clone(), stop_readers.clone());
+		let done_others = done_others.clone();
 		handles.push(std::thread::spawn(move || {
+			let _done = DoneGuard(done_others);
 			global::set_local_chain_type(ChainTypes::AutomatedTesting);
 			global::set_local_nrd_enabled(true);
 			verif::set_thread_tag(200);
@@ -204,11 +265,24 @@ fn run_one(case: &Value, dir: &str, seed: u64, delay_us: u64) -> Value {
 		std::thread::sleep(Duration::from_millis(5));
 	}
 	stop_readers.store(true, Ordering::SeqCst);
+	// ... and so must the readers and the template builder once they are told to stop
+	let mut who = "writers";
+	if !deadlock {
+		let t1 = Instant::now();
+		while done_others.load(Ordering::SeqCst) < nreaders as usize + 1 {
+			if t1.elapsed() > Duration::from_secs(45) {
+				deadlock = true;
+				who = "readers";
+				break;
+			}
+			std::thread::sleep(Duration::from_millis(5));
+		}
+	}
 	if deadlock {
 		verif::trace(false);
 		let ev = verif::take_events();
 		let tail: Vec<Value> = ev.iter().rev().take(40).map(|e| json!([e.seq, e.thread, e.kind, e.id])).collect();
-		return json!({"deadlock": true, "tail": tail, "tx_addr": tx_addr, "hp_addr": hp_addr});
+		return json!({"deadlock": true, "who": who, "tail": tail, "tx_addr": tx_addr, "hp_addr": hp_addr});
 	}
 	for h in handles {
 		let _ = h.join();
@@ -249,9 +323,100 @@ fn run_one(case: &Value, dir: &str, seed: u64, delay_us: u64) -> Value {
 	let evs: Vec<Value> = events.iter().map(|e| json!([e.seq, e.thread, e.kind, e.id])).collect();
 	let calls = calls.lock().unwrap().clone();
 	drop(chain);
-	let _ = std::fs::remove_dir_all(dir);
+	// (the directory itself stays: a long-trunk template of this process is addressed through it)
+	let _ = std::fs::remove_dir_all(format!("{}/node", dir));
+	let _ = std::fs::remove_dir_all(format!("{}/builder", dir));
 	json!({"deadlock": false, "panics": panics.load(Ordering::SeqCst), "events": evs, "calls": calls, "final": fin,
 		"tx_addr": tx_addr, "hp_addr": hp_addr})
+}
+
+
+/// A block that costs nothing to make: `parent`'s header moved one height up (honest prev_root from the
+/// builder's header MMR, sizes grown by one output and one kernel, one unit of work more) over a copy of
+/// `body`. Its header is valid, its body is not (roots) - enough to be an orphan candidate.
+fn header_variant(builder: &grin_chain::Chain, parent: &grin_core::core::BlockHeader, body: &grin_core::core::TransactionBody, diff: u64) -> grin_core::core::Block {
+	let mut h = parent.clone();
+	h.height = parent.height + 1;
+	h.version = grin_core::consensus::header_version(h.height);
+	h.prev_hash = parent.hash();
+	h.timestamp = parent.timestamp + chrono::Duration::seconds(60);
+	h.output_mmr_size = pmmr::insertion_to_pmmr_index(pmmr::n_leaves(parent.output_mmr_size) + 1);
+	h.kernel_mmr_size = pmmr::insertion_to_pmmr_index(pmmr::n_leaves(parent.kernel_mmr_size) + 1);
+	h.pow.total_difficulty = parent.pow.total_difficulty + grin_core::pow::Difficulty::from_num(diff);
+	// the header hash is the hash of the proof of work: a fresh proof makes a fresh block
+	h.pow.proof = grin_core::pow::Proof::random(global::proofsize());
+	builder.set_prev_root_only(&mut h).expect("prev root");
+	grin_core::core::Block { header: h, body: body.clone() }
+}
+
+/// World of the orphan-flood profile: blocks flagged "ok" are real (empty) blocks minted on a builder
+/// chain, every other block is a header variant of its parent (valid header, invalid body), so that
+/// hundreds of orphan candidates cost milliseconds. The node holds the trunk.
+fn flood_world(case: &Value, dir: &str) -> (World, grin_chain::Chain) {
+	use grin_core::libtx::{reward, ProofBuilder};
+	use grin_keychain::{ExtKeychain, ExtKeychainPath, Keychain};
+	let builder = init_chain(&format!("{}/builder", dir));
+	let node = init_chain(&format!("{}/node", dir));
+	let trunk = case["trunk"].as_u64().unwrap_or(0);
+	let g = builder.get_block(&builder.genesis().hash()).unwrap();
+	let kc = ExtKeychain::from_seed(&[7u8; 32], false).unwrap();
+	let mut tree = BTreeMap::new();
+	let entries: Vec<(u64, &Value)> = match &case["tree"] {
+		Value::Array(a) => a.iter().enumerate().map(|(i, v)| (i as u64, v)).collect(),
+		Value::Object(o) => o.iter().map(|(k, v)| (k.parse().unwrap(), v)).collect(),
+		_ => panic!("tree"),
+	};
+	for (id, v) in entries {
+		tree.insert(id, Blk { parent: v["parent"].as_u64().unwrap(), height: v["height"].as_u64().unwrap(), diff: v["diff"].as_u64().unwrap(),
+			tx: Default::default(), tx2: Default::default(), flag: v["flag"].as_str().unwrap().to_string() });
+	}
+	let mut blocks: std::collections::HashMap<u64, grin_core::core::Block> = std::collections::HashMap::new();
+	let mut id_of = std::collections::HashMap::new();
+	let mut commit_of = BTreeMap::new();
+	let mut outputs = std::collections::HashMap::new();
+	blocks.insert(0, g.clone());
+	id_of.insert(g.hash(), 0);
+	commit_of.insert(0, g.outputs()[0].commitment());
+	let mut last_body = g.body.clone();
+	for (id, b) in &tree {
+		if *id == 0 {
+			continue;
+		}
+		let prev = blocks[&b.parent].header.clone();
+		let blk = if b.flag == "ok" {
+			let key = ExtKeychainPath::new(3, 1, *id as u32, 0, 0).to_identifier();
+			let rw = reward::output(&kc, &ProofBuilder::new(&kc), &key, 0, false).unwrap();
+			commit_of.insert(*id, rw.0.commitment());
+			let mut blk = grin_core::core::Block::new(&prev, &[], grin_core::pow::Difficulty::from_num(b.diff), rw).expect("block new");
+			blk.header.timestamp = prev.timestamp + chrono::Duration::seconds(60);
+			builder.set_txhashset_roots(&mut blk).expect("roots");
+			builder.process_block(blk.clone(), Options::SKIP_POW).expect("builder accepts");
+			last_body = blk.body.clone();
+			blk
+		} else {
+			let blk = header_variant(&builder, &prev, &last_body, b.diff);
+			builder.process_block_header(&blk.header, Options::SKIP_POW).expect("builder accepts the header");
+			blk
+		};
+		id_of.insert(blk.hash(), *id);
+		for o in blk.outputs() {
+			outputs.entry(o.commitment()).or_insert_with(|| o.clone());
+		}
+		blocks.insert(*id, blk);
+	}
+	for k in 1..=trunk {
+		node.process_block(blocks[&k].clone(), Options::SKIP_POW).expect("trunk");
+	}
+	drop(builder);
+	(World { tree, pool: std::collections::HashMap::new(), blocks, id_of, commit_of, outputs }, node)
+}
+
+/// Counts a finished thread (also when it unwinds).
+struct DoneGuard(Arc<AtomicUsize>);
+impl Drop for DoneGuard {
+	fn drop(&mut self) {
+		self.0.fetch_add(1, Ordering::SeqCst);
+	}
 }
 
 /// Record the lock protocol of every public operation (single-threaded, one call each).
@@ -260,7 +425,7 @@ fn protocols(args: &Args) -> i32 {
 	let dir = args.req("work").to_string();
 	let _ = std::fs::remove_dir_all(&dir);
 	std::fs::create_dir_all(&dir).unwrap();
-	let chain = ck::init_chain(&format!("{}/node", dir)).unwrap();
+	let chain = Arc::new(ck::init_chain(&format!("{}/node", dir)).unwrap());
 	// long enough for Chain::compact() to really compact (head >= tail + horizon 20 + 60)
 	let blocks = ck::grow_chain(&chain, 1, 84, 2);
 	let tx_addr = Arc::as_ptr(&chain.txhashset()) as *const () as usize;
@@ -279,44 +444,122 @@ fn protocols(args: &Args) -> i32 {
 	let some_tx = next.clone();
 	let spend = ck::coinbase_fanout_tx(head.height - 3, ck::cb_value_of(&chain, head.height - 3), 900, 2);
 	let out_commit = blocks[5].outputs()[0].commitment();
+	// a transaction with a no-recent-duplicate kernel whose inputs are unspent (validate_tx reaches its NRD branch)
+	let nrd_tx = {
+		use grin_core::core::{FeeFields, KernelFeatures, NRDRelativeHeight};
+		use grin_core::libtx::{build, ProofBuilder};
+		let kc = ck::keychain();
+		let pb = ProofBuilder::new(&kc);
+		let v = ck::cb_value_of(&chain, head.height - 1);
+		let tx = build::transaction(
+			KernelFeatures::NoRecentDuplicate { fee: FeeFields::new(0, ck::FEE).unwrap(), relative_height: NRDRelativeHeight::new(1).unwrap() },
+			&[build::coinbase_input(v, ck::kid_cb(head.height - 1)), build::output(v - ck::FEE, ck::kid_out(901, 0))],
+			&kc,
+			&pb,
+		)
+		.expect("nrd tx");
+		tx
+	};
+	// an unspent output (for merkle proofs): the coinbase of the head block
+	let live_commit = blocks[blocks.len() - 1].outputs().iter().find(|o| o.is_coinbase()).unwrap().commitment();
+	let live_id = chain.get_unspent(live_commit).unwrap().map(|x| x.0);
+	let sid = |h: u8| grin_core::core::SegmentIdentifier { height: h, idx: 0 };
 	let _ = verif::take_events();
 	verif::set_thread_tag(1);
 	verif::trace(true);
 	let mut res: Vec<Value> = vec![];
+	let okflag = std::cell::Cell::new(true);
 	let mut rec = |name: &str, f: &mut dyn FnMut()| {
 		let s0 = verif::event("call_start", 0);
 		let r = std::panic::catch_unwind(std::panic::AssertUnwindSafe(|| f()));
 		let s1 = verif::event("call_end", 0);
-		res.push(json!({"op": name, "s0": s0, "s1": s1, "panic": r.is_err()}));
+		res.push(json!({"op": name, "s0": s0, "s1": s1, "panic": r.is_err(), "ok": okflag.get()}));
+		okflag.set(true);
 	};
 	rec("head", &mut || { let _ = chain.head(); });
 	rec("header_head", &mut || { let _ = chain.header_head(); });
 	rec("get_unspent", &mut || { let _ = chain.get_unspent(out_commit); });
 	rec("get_unspent_output_at", &mut || { let _ = chain.get_unspent_output_at(3); });
 	rec("validate_tx", &mut || { let _ = chain.validate_tx(&spend); });
+	rec("validate_tx_nrd", &mut || { okflag.set(chain.validate_tx(&nrd_tx).is_ok()); });
 	rec("validate_inputs", &mut || { let _ = chain.validate_inputs(&spend.inputs()); });
 	rec("verify_coinbase_maturity", &mut || { let _ = chain.verify_coinbase_maturity(&spend.inputs()); });
 	rec("verify_tx_lock_height", &mut || { let _ = chain.verify_tx_lock_height(&spend); });
 	rec("get_header_by_height", &mut || { let _ = chain.get_header_by_height(3); });
-	rec("get_header_for_output", &mut || { let _ = chain.get_header_for_output(out_commit); });
+	rec("get_header_for_output", &mut || { okflag.set(chain.get_header_for_output(live_commit).is_ok()); });
 	rec("get_output_pos", &mut || { let _ = chain.get_output_pos(&out_commit); });
 	rec("unspent_outputs_by_pmmr_index", &mut || { let _ = chain.unspent_outputs_by_pmmr_index(1, 100, None); });
 	rec("block_height_range_to_pmmr_indices", &mut || { let _ = chain.block_height_range_to_pmmr_indices(1, None); });
 	rec("get_kernel_height", &mut || { let _ = chain.get_kernel_height(&blocks[3].kernels()[0].excess(), None, None); });
+	rec("get_header_for_kernel_index", &mut || { let _ = chain.get_header_for_kernel_index(5, None, None); });
+	rec("get_last_n_output", &mut || { let _ = chain.get_last_n_output(3); });
+	rec("get_last_n_rangeproof", &mut || { let _ = chain.get_last_n_rangeproof(3); });
+	rec("get_last_n_kernel", &mut || { let _ = chain.get_last_n_kernel(3); });
+	rec("fork_point", &mut || { let _ = chain.fork_point(); });
+	rec("txhashset_archive_header_header_only", &mut || { let _ = chain.txhashset_archive_header_header_only(); });
+	// a GetHeaders request served by the network adapter (its own guard on the chain's header-MMR lock handle)
+	{
+		let node = adapter_glue::AdapterNode { chain: chain.clone() };
+		let locator = vec![blocks[60].hash(), blocks[20].hash(), chain.genesis().hash()];
+		rec("adapter_locate_headers", &mut || { okflag.set(node.serve_locator(&locator).map(|v| !v.is_empty()).unwrap_or(false)); });
+	}
 	rec("get_merkle_proof_for_pos", &mut || { let _ = chain.get_merkle_proof_for_pos(out_commit); });
+	if let Some(id) = live_id.clone() {
+		rec("get_merkle_proof", &mut || { okflag.set(chain.get_merkle_proof(&id, &head).is_ok()); });
+	}
 	rec("set_txhashset_roots", &mut || { let mut b = some_tx.clone(); let _ = chain.set_txhashset_roots(&mut b); });
 	rec("set_prev_root_only", &mut || { let mut h = some_tx.header.clone(); let _ = chain.set_prev_root_only(&mut h); });
 	rec("is_known", &mut || { let _ = chain.is_known(&head); });
 	rec("validate_fast", &mut || { let _ = chain.validate(true); });
+	rec("validate_full", &mut || { okflag.set(chain.validate(false).is_ok()); });
 	rec("segmenter", &mut || { let _ = chain.segmenter(); });
+	// serving state to a syncing peer: the four segment kinds of the cached segmenter and the zip archive
+	if let Ok(sg) = chain.segmenter() {
+		rec("segment_bitmap", &mut || { okflag.set(sg.bitmap_segment(sid(9)).is_ok()); });
+		rec("segment_output", &mut || { okflag.set(sg.output_segment(sid(11)).is_ok()); });
+		rec("segment_rangeproof", &mut || { okflag.set(sg.rangeproof_segment(sid(11)).is_ok()); });
+		rec("segment_kernel", &mut || { okflag.set(sg.kernel_segment(sid(11)).is_ok()); });
+	}
 	rec("txhashset_archive_header", &mut || { let _ = chain.txhashset_archive_header(); });
+	if let Ok(arch) = chain.txhashset_archive_header() {
+		rec("txhashset_read", &mut || { okflag.set(chain.txhashset_read(arch.hash()).is_ok()); });
+	}
+	let tail0 = chain.tail().map(|t| t.height).unwrap_or(0);
 	rec("compact", &mut || { let _ = chain.compact(); });
+	let compacted = chain.tail().map(|t| t.height).unwrap_or(0) > tail0;
 	rec("get_locator_hashes", &mut || { let _ = chain.get_locator_hashes(chain.header_head().unwrap(), &[8, 4, 0]); });
 	rec("process_block_header", &mut || { let _ = chain.process_block_header(&next.header, Options::SKIP_POW); });
 	rec("process_block_fork", &mut || { let _ = chain.process_block(fork.clone(), Options::SKIP_POW); });
 	rec("process_block_next", &mut || { let _ = chain.process_block(next.clone(), Options::SKIP_POW); });
 	rec("process_block_known", &mut || { let _ = chain.process_block(next.clone(), Options::SKIP_POW); });
 	rec("sync_block_headers", &mut || { let _ = chain.sync_block_headers(&[fork.header.clone()], chain.header_head().unwrap(), Options::SKIP_POW); });
+	// a delivery that ends in the orphan pool (parent header known, parent body missing) ...
+	{
+		let hh = chain.head_header().unwrap();
+		let b1 = header_variant(&chain, &hh, &next.body, 1);
+		let _ = chain.process_block_header(&b1.header, Options::SKIP_POW);
+		let b2 = header_variant(&chain, &b1.header, &next.body, 1);
+		rec("process_block_orphan", &mut || {
+			let r = chain.process_block(b2.clone(), Options::SKIP_POW);
+			if std::env::var("H_CONC_DEBUG").is_ok() {
+				eprintln!("process_block_orphan: {:?} head {:?} b1 {} {:?} b2 {} {:?} exists {:?}", r.as_ref().map(|_| ()), chain.head(), b1.hash(), b1.header.pow.total_difficulty, b2.hash(), b2.header.pow.total_difficulty, chain.block_exists(b2.hash()));
+			}
+			okflag.set(matches!(r, Err(grin_chain::Error::Orphan)));
+		});
+	}
+	// ... and one that reorganises the chain (a heavier sibling of the head)
+	{
+		let prev = chain.get_previous_header(&chain.head_header().unwrap()).unwrap();
+		let heavy = ck::make_block(&chain, &prev, 501, 7, &[]);
+		let before = chain.head().unwrap().last_block_h;
+		rec("process_block_reorg", &mut || {
+			let _ = chain.process_block(heavy.clone(), Options::SKIP_POW);
+			let after = chain.head().unwrap();
+			okflag.set(after.last_block_h == heavy.hash() && after.last_block_h != before);
+		});
+	}
+	// the owner API's resets
+	rec("reset_chain_head", &mut || { okflag.set(chain.reset_chain_head(chain.head().unwrap(), true).is_ok()); });
 	// the state-sync (PIBD) side works on the same two locks through the desegmenter's own handles
 	if let Ok(arch) = chain.txhashset_archive_header() {
 		rec("desegmenter", &mut || { let _ = chain.desegmenter(&arch); });
@@ -344,10 +587,13 @@ fn protocols(args: &Args) -> i32 {
 			});
 		}
 	}
+	rec("reset_pibd_head", &mut || { okflag.set(chain.reset_pibd_head().is_ok()); });
+	rec("reset_prune_lists", &mut || { okflag.set(chain.reset_prune_lists().is_ok()); });
+	rec("reset_chain_head_to_genesis", &mut || { okflag.set(chain.reset_chain_head_to_genesis().is_ok()); });
 	verif::trace(false);
 	let events = verif::take_events();
 	let evs: Vec<Value> = events.iter().map(|e| json!([e.seq, e.thread, e.kind, e.id])).collect();
-	println!("{}", json!({"calls": res, "events": evs, "tx_addr": tx_addr, "hp_addr": hp_addr}));
+	println!("{}", json!({"calls": res, "events": evs, "tx_addr": tx_addr, "hp_addr": hp_addr, "compacted": compacted}));
 	let _ = std::fs::remove_dir_all(&dir);
 	0
 }
@@ -442,6 +688,47 @@ fn race(args: &Args) -> i32 {
 	0
 }
 
+/// Directed, single-threaded probe of a two-lock view: the body head is A4, the header head is on the heavier
+/// header-only fork B4-B5; which header does get_header_for_output return for A4's coinbase?
+fn hfo(args: &Args) -> i32 {
+	use vcommon::chainkit as ck;
+	let dir = args.req("work").to_string();
+	let _ = std::fs::remove_dir_all(&dir);
+	std::fs::create_dir_all(&dir).unwrap();
+	let builder = ck::init_chain(&format!("{}/builder", dir)).unwrap();
+	let trunk = ck::grow_chain(&builder, 1, 3, 0);
+	let h3 = trunk[2].header.clone();
+	let a4 = ck::make_block(&builder, &h3, 4, 1, &[]);
+	builder.process_block(a4.clone(), Options::SKIP_POW).unwrap();
+	let b4 = ck::make_block(&builder, &h3, 5, 2, &[]);
+	builder.process_block(b4.clone(), Options::SKIP_POW).unwrap();
+	let b5 = ck::make_block(&builder, &b4.header, 6, 2, &[]);
+	let chain = ck::init_chain(&format!("{}/node", dir)).unwrap();
+	for b in trunk.iter().chain(std::iter::once(&a4)) {
+		chain.process_block(b.clone(), Options::SKIP_POW).unwrap();
+	}
+	let r1 = chain.process_block_header(&b4.header, Options::SKIP_POW).is_ok();
+	let r2 = chain.process_block_header(&b5.header, Options::SKIP_POW).is_ok();
+	let commit = a4.outputs().iter().find(|o| o.is_coinbase()).unwrap().commitment();
+	let name = |h: &grin_core::core::hash::Hash| {
+		if *h == a4.hash() { "A4" } else if *h == b4.hash() { "B4" } else if *h == b5.hash() { "B5" } else { "other" }
+	};
+	let head = chain.head().unwrap();
+	let hhead = chain.header_head().unwrap();
+	let unspent_height = chain.get_unspent(commit).ok().flatten().map(|x| x.1.height);
+	let out = match chain.get_header_for_output(commit) {
+		Ok(h) => json!({"returned": name(&h.hash()), "returned_height": h.height, "created_by": "A4", "contains_output": h.hash() == a4.hash(),
+			"head": name(&head.last_block_h), "header_head": name(&hhead.last_block_h), "headers_accepted": [r1, r2], "unspent_at_height": unspent_height}),
+		Err(e) => json!({"returned": format!("error: {:?}", e), "created_by": "A4", "contains_output": true, "errored": true,
+			"head": name(&head.last_block_h), "header_head": name(&hhead.last_block_h), "headers_accepted": [r1, r2], "unspent_at_height": unspent_height}),
+	};
+	println!("{}", out);
+	drop(chain);
+	drop(builder);
+	let _ = std::fs::remove_dir_all(&dir);
+	0
+}
+
 fn main() {
 	quiet_panics();
 	global::set_local_chain_type(ChainTypes::AutomatedTesting);
@@ -453,6 +740,9 @@ fn main() {
 	}
 	if args.pos.get(0).map(|s| s.as_str()) == Some("race") {
 		std::process::exit(race(&args));
+	}
+	if args.pos.get(0).map(|s| s.as_str()) == Some("hfo") {
+		std::process::exit(hfo(&args));
 	}
 	let cases = read_ndjson(args.req("cases"));
 	let mut out = NdWriter::create(args.req("out"));
